@@ -48,6 +48,11 @@ def run(ctx):
     nr = 4000 if thorough else 800
     for i in range(8):
         jobs.append(("rnd:%d" % i, [exe, "rnd", str(nr), str(i), "8", str(ctx.seed)]))
+    # weak-memory correspondence: the real UnrestrictedAtomic run with injected C11-permitted stale values of
+    # write_cell against the release/acquire view model (SeqLockRA.v)
+    nra = 24000 if thorough else 2400
+    for i in range(8):
+        jobs.append(("ras:%d" % i, [exe, "ras", str(nra), str(i), "8", str(ctx.seed), "50"]))
     ctx.log("proofs + builds done; running %d G1 jobs" % len(jobs))
     r = vlib.run_pipelines(jobs, driver, timeout=3000 if thorough else 1500)
     ctx.log("G1 done: %d executions, %d accesses" % (r["cases"], r["ops"]))
@@ -66,6 +71,13 @@ def run(ctx):
                 % (2, "1,2,3,9,65,129", "two of the six per program, rotating (all six covered)"
                    + ("; thorough adds the enumeration to 3 preemptions, stopped after 200 executions per program" if thorough else "")),
         "exhaustive": False,
+        "weak_memory_correspondence": {
+            "rule": "seeded random programs (writer with 3..8 updates through store / loan / discarded loan, 1..2 readers with 2..5 loads, random value size) and schedules of the REAL UnrestrictedAtomic in which "
+                    "the value returned by a reader's load or failed compare-exchange of write_cell is replaced, with probability 1/2, by an older value not older than what the thread has seen "
+                    "(sched::stale_enable); the driver lets the view model (SeqLockRA.v, code ordering table) choose its staleness oracle from the observed value and compares every access, every return "
+                    "value (hash of the loaded bytes) and the final state; the property oracle runs on the implementation's observations",
+            "executions": nra, "stale_values_injected": r["extra"].get("stale_values_injected", 0),
+            "executions_with_stale_value": r["extra"].get("executions_with_stale_value", 0)},
     })
     smp = vlib.extract_case(jobs[0][1], driver, 3)
     ctx.cov["samples"] = [{"job": jobs[0][0], "execution": smp[:40]}]
